@@ -133,7 +133,7 @@ class PluginGroup(Generic[T], metaclass=PluginGroupMeta):
             eprint(msg)
         self._ENTRY_POINTS[ep_name] = ep_obj
 
-        if ep_name not in self._VERSIONS:
+        if name not in self._VERSIONS:
             self._VERSIONS[name] = []
         self._VERSIONS[name].append(p_ref)
         self._VERSIONS[name].sort()  # should be cheap
